@@ -6,11 +6,12 @@ import Driver.Chi2
 import Driver.Pbc
 import Driver.Restr
 import Driver.Manager
+import Driver.SysGro
 /-
   gmdriver — reads request lines on stdin, writes one response line per request on stdout.
 -/
 
-def handlers : List Handler := [DGeom.handle, DEMap.handle, DMove.handle, DChi2.handle, DPbc.handle, DRestr.handle, DManager.handle]
+def handlers : List Handler := [DGeom.handle, DEMap.handle, DMove.handle, DChi2.handle, DPbc.handle, DRestr.handle, DManager.handle, DSysGro.handle]
 
 def dispatch (op : String) : Option (Rd String) :=
   handlers.findSome? (fun h => h op)
